@@ -4,7 +4,8 @@ from propslib import fn_scope
 PROP = dict(
     extract=["editor"],
     lean_targets=["Chewing.Props.C02"],
-    runs=[dict(bin="editor"), dict(bin="editor", args=["--script", "c02"], tag="editor-c02-tab-overflow")],
+    runs=[dict(bin="editor"), dict(bin="editor", args=["--script", "c02"], tag="editor-c02-tab-overflow"),
+          dict(bin="capi_props", tag="capi_props", args=["--histories", "300", "--calls", "40"], args_thorough=["--histories", "6000", "--calls", "40"])],
     scope=fn_scope("ed key", "ed commit", "ed select"),
     level="proof",
     exhaustive=False,
@@ -70,7 +71,8 @@ MANIFEST = dict(
          "to BEFORE the operation, a running per-session ledger, commit routes counted; stats "
          "c02_auto_commits_alt_pushes_out_other_text_key/_select count the overflows in which the chosen alternative pushes "
          "out other text than the default segmentation would - generated histories and the scripted run "
-         "editor-c02-tab-overflow).",
+         "editor-c02-tab-overflow). "
+         "C API (round 2, run capi_props): generated key/API histories (every chewing_handle_* handler incl. Default with all printable characters and non-characters, chewing_cand_*, option setters, buffer calls; three kinds of data directory) are driven through a C context and in lock-step through a twin chewing::editor::Editor built over the same data; after every call every C getter is compared with the twin's Rust getter (by-design differences modelled one by one: static vs heap strings, stateful Enumerate iterators, legacy zuin_*, chewing_ack) and this property's statement is evaluated on the C observations before/after the call; a difference or a failing statement is an oracle verdict with the history (FX2: the handlers narrowed the int key with `as u8`, repaired by fix a8c8390).",
     note="Theorem: everything above, about the model. Correspondence (sampled, not proved): model = src/editor/mod.rs on the "
          "generated histories. Premise, not proved here: that the real engines are C03's model (C03's own correspondence). "
          "That editor histories reach only valid compositions with a word for every buffered syllable is C01's invariant, now "
